@@ -815,6 +815,33 @@ impl Ck {
                     }
                 }
             }
+            ExprKind::SliceExpr(arr, lo, hi, max) => {
+                let xa = self.expr(arr);
+                self.tick("slice-expr");
+                for b in [lo, hi, max].into_iter().flatten() {
+                    let xb = self.expr(b);
+                    match (&xb.ty, &xb.konst) {
+                        (XTy::UntypedInt, Some(Const::Int(v))) => {
+                            if *v < 0 {
+                                self.err("index", line, format!("invalid argument: index {} must not be negative", v));
+                            }
+                            let c = Const::Int(*v);
+                            self.materialize(b, &c, &Ty::Int(IntKind::Int));
+                        }
+                        (XTy::T(Ty::Int(_)), _) | (XTy::Opaque, _) => {}
+                        (t, _) => self.err("index", line, format!("invalid argument: slice index of type {:?} must be integer", t)),
+                    }
+                }
+                match &xa.ty {
+                    XTy::T(Ty::Slice(_)) => X { ty: xa.ty.clone(), konst: None, addressable: false },
+                    XTy::Opaque => Self::bad(),
+                    t => {
+                        // strings and arrays can be sliced too; the emitted Go never does
+                        self.err("unsupported-builtin", line, format!("slice expression on {:?} is outside the modelled subset", t));
+                        Self::bad()
+                    }
+                }
+            }
             ExprKind::Index(arr, idx) => {
                 let xa = self.expr(arr);
                 let xi = self.expr(idx);
